@@ -185,6 +185,7 @@ type proc struct {
 	mu      sync.Mutex
 	eff     Effects // accumulating effects of the current step (Bcasts/Rule/Unjust reset per step)
 	timerCh chan time.Time
+	realCh  <-chan time.Time // channel of the real round timer (C04), polled by the driver
 	runErr  error
 	started bool
 }
@@ -198,6 +199,10 @@ type Cluster struct {
 	procs   map[int64]*proc
 	Wait    time.Duration
 	FIFO    int
+	// RealTimer, when set, returns for member p the real round timer's Timer method (core/consensus/timer on a
+	// fake clock). The driver keeps the real channel to itself and polls it (TimerDue); Run gets a proxy channel,
+	// so a tick is still delivered as one driver-controlled stimulus.
+	RealTimer func(p int64) func(round int64) (<-chan time.Time, func())
 }
 
 // New creates a cluster.
@@ -230,18 +235,30 @@ func (c *Cluster) Start(p int64) Effects {
 	c.procs[p] = pr
 	ctx, cancel := context.WithCancel(context.Background())
 	pr.cancel = cancel
+	var realTimer func(round int64) (<-chan time.Time, func())
+	if c.RealTimer != nil {
+		realTimer = c.RealTimer(p)
+	}
 	def := qbft.Definition[int64, int64, int64]{
 		IsLeader: func(_ int64, round, process int64) bool { return c.leader(round, process) },
 		NewTimer: func(round int64) (<-chan time.Time, func()) {
 			ch := make(chan time.Time)
+			var rc <-chan time.Time
+			rstop := func() {}
+			if realTimer != nil {
+				rc, rstop = realTimer(round)
+			}
 			pr.mu.Lock()
 			pr.timerCh = ch
+			pr.realCh = rc
 			pr.eff.Timer = round
 			pr.mu.Unlock()
 			return ch, func() {
+				rstop()
 				pr.mu.Lock()
 				if pr.timerCh == ch {
 					pr.timerCh = nil
+					pr.realCh = nil
 					pr.eff.Timer = 0
 				}
 				pr.mu.Unlock()
@@ -415,6 +432,28 @@ func (c *Cluster) Timeout(p int64) Effects {
 		t.Stop()
 	}
 	return c.barrier(pr, ok)
+}
+
+// TimerDue reports (and consumes) whether p's real round timer has fired on the fake clock.
+func (c *Cluster) TimerDue(p int64) bool {
+	pr := c.procs[p]
+	pr.mu.Lock()
+	rc := pr.realCh
+	pr.mu.Unlock()
+	if rc == nil {
+		return false
+	}
+	select {
+	case <-rc:
+		pr.mu.Lock()
+		if pr.realCh == rc {
+			pr.realCh = nil
+		}
+		pr.mu.Unlock()
+		return true
+	default:
+		return false
+	}
 }
 
 // Crash stops p.
